@@ -6,8 +6,8 @@ from props import grammar_oracle as go
 
 ID = "C17"
 LEVEL = "exploration"
-SIDECARS = []
-TARGETS = []
+SIDECARS = ["contracts.arch", "contracts.mapping_c17"]
+TARGETS = ["Architecture.__init__", "Mapping.__init__"]
 TECHNIQUE = ("bounded: strings derived from the five grammars within a size bound (and near-miss strings) through the "
              "real public parsers, read back by an independent extractor")
 EXPLANATION = (
@@ -18,7 +18,12 @@ EXPLANATION = (
     "numeric and symbolic sizes; rank tuples of <= 4; the three stamp forms; both level-name forms) is rendered with "
     "randomised insignificant whitespace, parsed by the real parser (including EquationParser.parse's post-parse "
     "normalisation and Architecture's N+1 instance count) and read back by an independent extractor; near-miss "
-    "strings must be rejected.")
+    "strings must be rejected. PROVED (SMT, contracts/arch.py) is only the per-visit lemma of Architecture.__init__: "
+    "each level dictionary it visits gets name and num (1 for NAME, N + 1 for NAME[0..N]) from the name it carried "
+    "when visited, whatever was visited before; and of Mapping.__init__: the directive list stored for an entry is "
+    "PartitioningParser.parse_partitioning of each directive string as written, in order (nothing cached or re-keyed "
+    "between the YAML text and the parser); the traversal itself and dictionaries shared through YAML aliases are "
+    "served by a bounded architecture-tree family.")
 TRUSTED = ["the independent extractor below"]
 ASSUMPTIONS = ["bounded: enumerated structures; whitespace randomised by VERIF_SEED"]
 
@@ -183,6 +188,14 @@ def check_mutants(rnd, valid, reader, real, pool, name, cap):
                 continue
             ev += 1
             got = real(m)
+            if name == "directive" and '"' not in m and "\\" not in m:
+                via = go.real_directive_via_mapping(s, m)       # the public entry point, valid spelling in the same mapping
+                ev += 1
+                if via != got:
+                    fails.append({"name": "bounded/directive-near-miss",
+                                  "detail": "%r is read as %r by the directive parser but as %r by Mapping (with %r written for "
+                                            "another rank of the same mapping)" % (m, got, via, s),
+                                  "witness": {"text": m, "same_mapping_also_has": s}})
             if want[0] == "reject" and got[0] != "reject":
                 fails.append({"name": "bounded/%s-near-miss" % name, "detail": "%r (outside the grammar) accepted as %r after parsing %r"
                               % (m, got[1], s), "witness": {"text": m, "after_parsing": s}})
@@ -292,6 +305,8 @@ def check_directives(rnd):
             if got != ("single" if n is None else "multiple", nm, n) or num != (1 if n is None else n + 1):
                 fails.append({"name": "bounded/level-roundtrip", "detail": "%r parsed to %r, num=%r" % (text, got, num),
                               "witness": {"text": text}})
+    e_, f_ = check_arch_trees(rnd)
+    ev, fails = ev + e_, fails + f_
     for bad in ("PE[0..]", "PE[1..4]", "PE[0..4", "PE[0.4]", "[0..4]", "PE[0..x]", "PE[0..4]]", "PE[0..-1]"):
         ev += 1
         try:
@@ -314,6 +329,71 @@ def check_directives(rnd):
     e, f = check_mutants(rnd, valid_l, go.read_level, go.real_level, ["[0..", "]", "[", "..", "0", "7", "PE", " "], "level", cap)
     ev, fails = ev + e, fails + f
     return ev, distinct, fails
+
+
+def check_arch_trees(rnd, n=60):
+    """architecture trees (<= 3 levels deep, <= 3 siblings, 1-2 configurations, single and multiple level names in
+    every position, optionally one subtree shared by a YAML anchor/alias between configurations or siblings) through
+    the real Architecture parser; every level of the parsed specification must carry the name and N + 1 written"""
+    from teaal.parse import Architecture
+    ev, fails = 0, []
+
+    def gen_level(depth, path):
+        nm = rnd.choice(["PE", "Row", "L2", "System", "x"]) + "".join(str(p) for p in path)
+        n = rnd.choice([None, None, 0, 1, 3, 7, 15])
+        kids = [] if depth >= 2 else [gen_level(depth + 1, path + [i]) for i in range(rnd.choice([0, 1, 1, 2, 3]))]
+        return {"nm": nm, "n": n, "kids": kids}
+
+    def render(lv, ind, anchor=None):
+        pad = " " * ind
+        text = lv["nm"] if lv["n"] is None else "%s[0..%d]" % (lv["nm"], lv["n"])
+        head = "%s- %sname: %s\n" % (pad, ("&%s " % anchor) if False else "", text)
+        if anchor:
+            head = "%s- &%s\n%s  name: %s\n" % (pad, anchor, pad, text)
+        out = head
+        if lv["kids"]:
+            out += "%s  subtree:\n" % pad
+            for k in lv["kids"]:
+                out += render(k, ind + 2)
+        return out
+
+    def expect(lv):
+        return (lv["nm"], 1 if lv["n"] is None else lv["n"] + 1, [expect(k) for k in lv["kids"]])
+
+    def got(t):
+        return (t.get("name"), t.get("num"), [got(k) for k in t.get("subtree", [])])
+    for i in range(n):
+        root = gen_level(0, [])
+        mode = i % 3          # 0: one configuration; 1: second configuration re-uses a subtree by alias; 2: alias as a sibling
+        y = "architecture:\n  c0:\n"
+        want = {"c0": [expect(root)]}
+        if mode == 0 or not root["kids"]:
+            y += render(root, 2)
+        else:
+            shared = root["kids"][0]
+            pad = "    "
+            text = root["nm"] if root["n"] is None else "%s[0..%d]" % (root["nm"], root["n"])
+            y += "  - name: %s\n    subtree:\n" % text
+            y += render(shared, 4, anchor="sh")
+            for k in root["kids"][1:]:
+                y += render(k, 4)
+            if mode == 2:
+                y += "    - *sh\n"
+                want["c0"][0][2].append(expect(shared))
+            else:
+                y += "  c1:\n  - name: Top\n    subtree:\n    - *sh\n"
+                want["c1"] = [("Top", 1, [expect(shared)])]
+        ev += 1
+        try:
+            spec = Architecture.from_str(y).get_spec()["architecture"]
+            have = {c: [got(t) for t in spec[c]] for c in spec}
+        except Exception as ex:      # noqa
+            have = "raised %s: %s" % (type(ex).__name__, ex)
+        if have != want:
+            fails.append({"name": "bounded/architecture-tree", "detail": "levels parsed as %s, written %s%s" % (
+                str(have)[:300], str(want)[:300], "" if mode == 0 else " cause=level-shared-through-a-yaml-alias"),
+                "witness": {"yaml": y, "parsed": str(have)[:800], "written": str(want)[:800]}})
+    return ev, fails[:4]
 
 
 def bounded(uni, tier, seed):
